@@ -149,7 +149,7 @@ def plain_values_for(e, attr, rng, k):
     if attr in ("u_cell_delimiters", "v_cell_delimiters", "z_cell_delimiters"):
         return pick([np.array([0.0, 1.0, 3.0]), np.array([0.0, -2.0, -4.0, -8.0]), np.array([0.0, 5.0])])
     if attr == "collar":
-        return pick([[1.0, 2.0, 3.0], [-5.0, 10.5, 250.0]])
+        return [[1.5e-05, -2e-07, 1e16]] + pick([[1.0, 2.0, 3.0], [-5.0, 10.5, 250.0]])[: max(k - 1, 1)]  # coordinates print in any notation
     if attr == "surveys":
         return pick([np.array([[0.0, 10.0, -80.0], [25.0, 20.0, -70.0]]), np.array([[0.0, 0.0, -90.0], [10.0, 45.0, -60.0], [30.0, 90.0, -45.0]])])
     if attr == "cost":
